@@ -262,6 +262,8 @@ pub enum Op08 {
 
 pub struct Subject08 {
     rocks: Option<Policy>,
+    /// import a genesis block and one block with a transaction before the exploration starts
+    prefill: bool,
 }
 
 pub struct W08 {
@@ -280,6 +282,7 @@ pub struct W08 {
     stored_txs: Vec<Transaction>,
     notices_seen: usize,
     published_seen: usize,
+    prefill_violation: Option<Violation>,
 }
 
 fn new_tx(height: u32, variant: u8) -> Transaction {
@@ -495,7 +498,7 @@ impl Subject for Subject08 {
     type World = W08;
     type Op = Op08;
     fn name(&self) -> String {
-        format!("importer[{}]", self.rocks.map(|p| format!("RocksDB/{}", p.name())).unwrap_or_else(|| "MemoryStore".into()))
+        format!("importer[{}{}]", self.rocks.map(|p| format!("RocksDB/{}", p.name())).unwrap_or_else(|| "MemoryStore".into()), if self.prefill { ", 2 blocks pre-imported" } else { "" })
     }
     fn fresh(&self) -> W08 {
         let dir = self.rocks.map(|_| Scratch::new());
@@ -511,7 +514,7 @@ impl Subject for Subject08 {
         let importer = Importer::new(ChainId::default(), Config::new(false), observed, validator.clone(), verifier.clone(), publisher.clone());
         *probe.rx.lock().unwrap() = Some(importer.subscribe());
         let rt = tokio::runtime::Builder::new_current_thread().enable_time().build().expect("runtime");
-        W08 {
+        let mut w = W08 {
             rt,
             importer: Arc::new(importer),
             db,
@@ -525,7 +528,20 @@ impl Subject for Subject08 {
             stored_txs: vec![],
             notices_seen: 0,
             published_seen: 0,
+            prefill_violation: None,
+        };
+        if self.prefill {
+            for op in [
+                Op08::Commit { block: BlockKind::Genesis0, changes: ExecChanges::Empty, local: false, fault: Fault::None },
+                Op08::Commit { block: BlockKind::NextB, changes: ExecChanges::Data, local: true, fault: Fault::None },
+            ] {
+                if let Err(v) = self.step(&mut w, &op) {
+                    w.prefill_violation = Some(viol(v.sig, format!("while importing the two pre-imported blocks: {}", v.msg)));
+                    break;
+                }
+            }
         }
+        w
     }
     fn enabled(&self, w: &W08) -> Vec<Op08> {
         // letters that need a tip / a stored transaction are offered only when they exist
@@ -561,19 +577,13 @@ impl Subject for Subject08 {
             Op08::Concurrent { .. } => "concurrent".into(),
         }
     }
-    fn required_labels(&self) -> Vec<String> {
-        [
-            "commit:Genesis0", "commit:NextA", "commit:NextB", "commit:NextWithStoredTx", "commit:DuplicateTip", "commit:Skip", "commit:Stale", "commit:PoAZero", "commit:PublishFails", "commit:TouchBlockMerkleRoot", "execute:NextA",
-            "execute:VerificationFails", "execute:ExecutionFails", "execute:TouchBlockMerkleRoot", "concurrent",
-        ]
-        .iter()
-        .map(|s| s.to_string())
-        .collect()
-    }
     fn interesting(&self, _op: &Op08, obs: &str) -> bool {
         obs.starts_with("imported") || obs.starts_with("refused")
     }
     fn step(&self, w: &mut W08, op: &Op08) -> Result<String, Violation> {
+        if let Some(v) = w.prefill_violation.clone() {
+            return Err(v);
+        }
         let before = dump(&w.db).map_err(|e| viol("read-error", e))?;
         match op {
             Op08::Commit { block, changes, local, fault } => {
@@ -706,14 +716,14 @@ fn verdict(what: &str, expect_ok: bool, r: &Result<(), String>, why: &str) -> Re
 }
 
 pub fn run(cli: &Cli) {
-    let mut subs = vec![Subject08 { rocks: None }];
-    subs.push(Subject08 { rocks: Some(Policy::NoRewind) });
+    let mut subs = vec![Subject08 { rocks: None, prefill: false }];
+    subs.push(Subject08 { rocks: Some(Policy::NoRewind), prefill: true });
     if cli.tier == Tier::Thorough {
-        subs.push(Subject08 { rocks: Some(Policy::Full) });
+        subs.push(Subject08 { rocks: Some(Policy::Full), prefill: true });
     }
     if let Some(path) = &cli.replay {
         let rf = load_replay(path);
-        for s in [Subject08 { rocks: None }, Subject08 { rocks: Some(Policy::NoRewind) }, Subject08 { rocks: Some(Policy::Full) }] {
+        for s in [Subject08 { rocks: None, prefill: false }, Subject08 { rocks: Some(Policy::NoRewind), prefill: true }, Subject08 { rocks: Some(Policy::Full), prefill: true }] {
             if s.name() == rf.subject {
                 replay_exit(&s, &rf);
             }
@@ -722,10 +732,17 @@ pub fn run(cli: &Cli) {
     }
     let mut run = Run::new(cli, "model_checking");
     let mut quiet = vec![];
-    let depth_of = |s: &Subject08| if s.rocks.is_some() { cli.tier.pick(2, 3) } else { cli.tier.pick(3, 5) };
+    let depth_of = |s: &Subject08| if s.rocks.is_some() { cli.tier.pick(1, 2) } else { cli.tier.pick(3, 5) };
     let max_depth = subs.iter().map(depth_of).max().unwrap_or(0);
-    let reports = crate::util::explore_parallel(&subs, |s| Bounds::new(depth_of(s), cli).wall(cli.tier.pick(50, 1200)), cli.threads);
+    let reports = crate::util::explore_parallel(&subs, |s| Bounds::new(depth_of(s), cli).wall(cli.tier.pick(110, 1200)), cli.threads);
     for r in reports {
+        crate::util::require_labels(
+            &r,
+            &[
+                "commit:Genesis0", "commit:NextA", "commit:NextB", "commit:NextWithStoredTx", "commit:DuplicateTip", "commit:Skip", "commit:Stale", "commit:PoAZero", "commit:PublishFails", "commit:TouchBlockMerkleRoot", "execute:NextA",
+                "execute:VerificationFails", "execute:ExecutionFails", "execute:TouchBlockMerkleRoot", "concurrent",
+            ],
+        );
         if !r.violations.is_empty() || !r.exhaustive {
             run.add(r);
         } else {
